@@ -97,7 +97,9 @@ fn run_pipeline(heap: &mut Heap, sources: mir::Sources, p: &Pipeline) -> mir::So
 fn operand_order_family() -> Vec<Prog> {
   let ops = ["<", "<=", ">", ">=", "==", "!=", "+", "-", "*"];
   let inners = [("x", "x"), ("x+1", "x + 1"), ("x-1", "x - 1"), ("x+3", "x + 3"), ("x-2", "x - 2"), ("x*2", "x * 2"), ("0-x", "0 - x"), ("1+x", "1 + x"), ("(x+1)-3", "x + 1 - 3"), ("(x-1)+2", "x - 1 + 2")];
-  let consts = [0i32, 1, -1, 3, -4];
+  // small constants, and the edges of the 32-bit range (a rewrite that moves a constant across the
+  // comparison must not wrap)
+  let consts = [0i32, 1, -1, 3, -4, 2147483647, -2147483648, 2147483646, -2147483647];
   let xs = [-5i32, -2, -1, 0, 1, 2, 3, 6];
   let mut out = vec![];
   for op in ops {
